@@ -97,19 +97,29 @@ def judge(chk: Check, traces: list[dict], label: str, via: str) -> None:
     if not traces:
         return
     by_id = {t["id"]: t for t in traces}
-    step = 6000
+    # chunks of at most ~60k observations per monitor run (TLC holds the whole trace file in memory)
+    chunks: list[list[dict]] = [[]]
+    nobs = 0
+    for t in traces:
+        if nobs + len(t["obs"]) > 60000 and chunks[-1]:
+            chunks.append([])
+            nobs = 0
+        chunks[-1].append(t)
+        nobs += len(t["obs"])
     verdicts = []
-    for i in range(0, len(traces), step):
+    for i, chunk in enumerate(chunks):
         d = chk.scratch.sub("union_traces")
         tf = d / "traces.ndjson"
         with tf.open("w") as f:
-            for t in traces[i : i + step]:
+            for t in chunk:
                 f.write(json.dumps({k: v for k, v in t.items() if not k.startswith("_")}) + "\n")
-        r = run_tlc(chk.scratch, "Trace_Union", "SPECIFICATION Spec\nCHECK_DEADLOCK FALSE\n", workers=16, env={"TRACE_FILE": str(tf)}, coverage=True, timeout=900)
-        chk.add_tlc(f"Trace_Union[{label},{i // step}]", r)
+        r = run_tlc(chk.scratch, "Trace_Union", "SPECIFICATION Spec\nCHECK_DEADLOCK FALSE\n", workers=16, env={"TRACE_FILE": str(tf)}, coverage=True, timeout=1800)
+        chk.add_tlc(f"Trace_Union[{label},{i}]", r)
+        chk.require(r.coverage.get("Judge1", (0, 0))[1] > 0, f"vacuous monitor run for {label}")
         vs = r.printed.get("VERDICT", [])
-        chk.require(len(vs) == len(traces[i : i + step]), f"monitor produced {len(vs)} verdicts for {len(traces[i:i+step])} traces")
+        chk.require(len(vs) == len(chunk), f"monitor produced {len(vs)} verdicts for {len(chunk)} traces")
         verdicts += vs
+        tf.unlink()
     ndrift = 0
     for v in verdicts:
         t = by_id[v["id"]]
@@ -287,7 +297,7 @@ def run(chk: Check) -> None:
         "no discriminator), a mixed family (str,int,float,bool,List[str],List[int],Dict[str,str],Dict[str,int],dict[str,Any], 3 objects; "
         "nullable or not), a discriminator family (9 object types over {a,b}; complete mapping and every partial mapping); payloads = every "
         "canonical instance of every variant (discriminator family: with every variant's tag, i.e. also mis-tagged bodies); thorough adds "
-        "4-variant unions (objects over {a,b}; discriminator family) and all three positions for every union; each pair is replayed on the "
+        "4-variant unions (objects over {a,b}; mixed; discriminator family) and all three positions for every union of <=3 variants; each pair is replayed on the "
         "real converter (direct) and ~200 unions additionally through generated packages; non-trivial = distinct union with >=2 variants"
     )
     chk.assumptions += [
@@ -303,12 +313,13 @@ def run(chk: Check) -> None:
     fams["obj"] = design(chk, "obj", 2, 3)
     if thorough:
         fams["obj2x4"] = design(chk, "obj2", 4, 4)
+        fams["mixed4"] = design(chk, "mixed", 4, 4)
         fams["disc4"] = design(chk, "disc", 4, 4)
     rel = chk.cov["design_counterexample_relation"]
     chk.require(any(k.startswith("C14.lossy") and '"relation": "subset"' in k for k in rel), "design check vacuous: the modelled algorithm shows no subset-swallowing counterexample")
     chk.require(not any(k.split(" ")[0] in ("C14.unmapped_guess", "C14.retry_after_mapped_failure", "C14.wrong_variant_with_discriminator") for k in rel),
                 "the modelled algorithm violates a discriminator clause: model and design notes out of date")
-    allpos = 4 if thorough else 2
+    allpos = 3 if thorough else 2  # unions with more variants are replayed at one (hash-chosen) position each
     for fam, scen in fams.items():
         if fam == "obj" and not thorough:
             # quick tier: every 2-variant object union, a deterministic third of the 3-variant ones (the design check above is
